@@ -542,6 +542,19 @@ pub fn run(ctx: &Ctx) -> Report {
             bodies.push((format!("{} '&' before two pairs", n), [&amps[..], b"Action=ListUsers&Version=2010-05-08"].concat()));
             bodies.push((format!("two pairs followed by {} '&'", n), [&b"Action=ListUsers&Version=2010-05-08"[..], &amps].concat()));
         }
+        // queries copied out of HTML / XML: entity-escaped and other would-be separators are ordinary bytes of a name
+        // or value ('&' alone separates)
+        for e in ["&amp;", "&AMP;", "&#38;", "&#x26;", "&lt;", "&quot;", "&apos;", ";", "&;", "&amp", "amp;", "&amp;amp;", "&nbsp;"] {
+            for shape in 0..4 {
+                let b = match shape {
+                    0 => format!("a=1{}b=2", e),
+                    1 => format!("{}a=1", e),
+                    2 => format!("a=1{}", e),
+                    _ => format!("a={}1&c=3{}b=2", e, e),
+                };
+                bodies.push((format!("entity-like separator {:?} (shape {})", e, shape), b.into_bytes()));
+            }
+        }
         let n_s = bodies.len() as u64 * 2;
         let part = par_sweep(n_s, |i, st| {
             let (label, body) = &bodies[(i / 2) as usize];
@@ -553,6 +566,12 @@ pub fn run(ctx: &Ctx) -> Report {
             let mut plan = e2e::base_plan(carrier);
             plan.method = "POST".into();
             plan.url_params = vec![(b"u".to_vec(), b"1".to_vec())];
+            if label.starts_with("entity-like") && !body.contains(&b'#') {
+                // ... and the same text once more in the URL itself
+                let text = String::from_utf8_lossy(body).to_string();
+                plan.url_params.extend(params.iter().cloned());
+                plan.wire_query = Some(format!("u=1&{}", text));
+            }
             plan.body = body.clone();
             plan.body_params = Some(params);
             plan.headers.push(("Content-Type".into(), b"application/x-www-form-urlencoded".to_vec()));
@@ -568,7 +587,7 @@ pub fn run(ctx: &Ctx) -> Report {
                 }
             }
             if !j.reference.accepted() {
-                machinery_error(&format!("C10 (e') {}: the reference refuses its own request", label));
+                machinery_error(&format!("C10 (e') {}: the reference refuses its own request: {:?} at {:?}\n{}", label, j.reference.error, j.reference.stage, case.wire.render()));
             }
             st.nontrivial(&(label, carrier, "special-form"));
         });
@@ -619,7 +638,7 @@ pub fn run(ctx: &Ctx) -> Report {
     Report {
         stats: st,
         rule: format!(
-            "(a) every ordered list of 0..={} parameters over {} names x {} values (all permutations included), compared with the reference canonical string computed from the logical multiset; (b) every list of <= {} parameters in every combination of {} per-element spellings (canonical, lower-case hex, needless escape, '+' for space, everything escaped) plus '&&'/leading/trailing '&' at every gap and omitted '='; (c) every byte 0..255 as %XX in both hex cases and every literal char < U+0800 in a name and in a value, every two-character escape over ASCII^2, malformed escapes at every position of three templates, '%' followed by multi-byte characters; 128 queries of 21..257 parameters over 1, 2, 3 or 8 repeated names in 4 arrival orders, each canonicalised 16 times through fresh maps; (d) iteration-order exhaustion of the crate's own HashMap for {} queries on worker and fresh OS threads, digests from {} fresh processes; (e) end-to-end acceptance of reference-signed requests for every list of <= 2 parameters on both carriers, all in the URL and with the last / all pairs in a folded form body (the same pair may then stand in both places), and 12 folded form bodies with a raw byte-order mark, zero-width marks, NUL or line ends, and 30 folded form bodies of 65 000 .. 1 048 577 bytes that are two pairs and otherwise empty segments ('&' runs between, before and after them); (f) every ordered pair over 58 related query strings (prefixes / extensions, case, escape and separator variants, 100- and 70-parameter strings differing only at the end, malformed ones) evaluated back to back on one thread, each judged alone. states = distinct canonical strings; non-trivial = input differs from its canonical form",
+            "(a) every ordered list of 0..={} parameters over {} names x {} values (all permutations included), compared with the reference canonical string computed from the logical multiset; (b) every list of <= {} parameters in every combination of {} per-element spellings (canonical, lower-case hex, needless escape, '+' for space, everything escaped) plus '&&'/leading/trailing '&' at every gap and omitted '='; (c) every byte 0..255 as %XX in both hex cases and every literal char < U+0800 in a name and in a value, every two-character escape over ASCII^2, malformed escapes at every position of three templates, '%' followed by multi-byte characters; 128 queries of 21..257 parameters over 1, 2, 3 or 8 repeated names in 4 arrival orders, each canonicalised 16 times through fresh maps; (d) iteration-order exhaustion of the crate's own HashMap for {} queries on worker and fresh OS threads, digests from {} fresh processes; (e) end-to-end acceptance of reference-signed requests for every list of <= 2 parameters on both carriers, all in the URL and with the last / all pairs in a folded form body (the same pair may then stand in both places), and 12 folded form bodies with a raw byte-order mark, zero-width marks, NUL or line ends, and 30 folded form bodies of 65 000 .. 1 048 577 bytes that are two pairs and otherwise empty segments ('&' runs between, before and after them), and 52 bodies (repeated as URL queries) with entity-like separators ('&amp;', '&#38;', ';', '&lt;', ...) between, before and after pairs; (f) every ordered pair over 58 related query strings (prefixes / extensions, case, escape and separator variants, 100- and 70-parameter strings differing only at the end, malformed ones) evaluated back to back on one thread, each judged alone. states = distinct canonical strings; non-trivial = input differs from its canonical form",
             max_len, NAMES.len(), VALUES.len(), resp_len, NVARIANTS, order_queries.len(), nproc
         ),
         bounds: json!({"max_params": max_len, "respelled_params": resp_len, "names": NAMES.len(), "values": VALUES.len()}),
